@@ -291,6 +291,14 @@ impl StringPool {
     }
 }
 
+#[cfg(msi_verif)]
+impl StringPool {
+    /// Verification hook: a copy of the pool entries (text, refcount).
+    pub(crate) fn verif_entries(&self) -> Vec<(String, u16)> {
+        self.strings.clone()
+    }
+}
+
 // ========================================================================= //
 
 #[cfg(test)]
